@@ -211,3 +211,30 @@ Lemma frames_fit_refuted_before_fix :
   let fs := send_fields_old 1500 (mkSo true false) 0 false [0;0;1;2;3;4] None None (repeat 7 3061) in
   existsb (fun f => (1500 <? zlen (lp_encode f))%Z) fs = true /\ forallb (fun f => match f_idx f with None => true | Some _ => false end) fs = true.
 Proof. vm_compute. split; reflexivity. Qed.
+
+(* InternalTransport.Receive never hits a nil IncomingFaceId on what the internal face's link service sends: with incoming-face
+   indication enabled and an incoming face named by the forwarding thread, EVERY frame of every packet - each fragment, not only
+   the first - carries the field. *)
+Lemma number_frags_inface sq cnt tok inface mark : forall cs i,
+  Forall (fun f => f_inface f = inface) (number_frags sq i cnt tok inface mark cs).
+Proof. induction cs as [|c cs IH]; intros i; cbn [number_frags]; constructor; [reflexivity|apply IH]. Qed.
+
+Theorem internal_receive_total_lemma : forall mtu hdr o sq tok i mark wire,
+  o_ifi o = true ->
+  Forall (fun f => internal_receive (DPkt None None (Some f)) <> IPanic)
+         (fst (send_fields_h mtu hdr o sq tok (Some i) mark wire)).
+Proof.
+  intros mtu hdr o sq tok i mark wire Hifi.
+  assert (G : Forall (fun f => f_inface f = Some i) (fst (send_fields_h mtu hdr o sq tok (Some i) mark wire))).
+  { unfold send_fields_h. rewrite Hifi.
+    destruct (lp_frame_length (exact_header o tok (Some i) mark) (zlen wire) <=? mtu)%Z; [repeat constructor|].
+    destruct (negb (o_frag o)); [constructor|].
+    destruct (effective_mtu_h mtu hdr tok mark <=? 0)%Z; [constructor|]. cbn [fst]. apply number_frags_inface. }
+  eapply Forall_impl; [|exact G]. intros f Hf. unfold internal_receive. destruct (f_frag f) as [[|x fr]|]; try discriminate.
+  rewrite Hf. discriminate.
+Qed.
+
+(* carrying the field on the first fragment only (as NFD does) is what Receive cannot take *)
+Lemma internal_receive_first_only_panics :
+  internal_receive (DPkt None None (Some (mkLpf (Some 1) (Some 1) (Some 2) [] None None None None (Some [7])))) = IPanic.
+Proof. reflexivity. Qed.
